@@ -327,6 +327,8 @@ class Fun:
             if r1 is not None:
                 return self.size_expr(r1, r1, depth + 1)
             if d["kind"] == "param" and ("int" in d["ty"] or "long" in d["ty"] or "short" in d["ty"]) and "std::" not in d["ty"]:
+                if not any(p_["id"] == d["id"] for p_ in self.f.params):
+                    return None          # parameter of a nested lambda: chosen by whoever calls the lambda, not by the function's caller
                 return self.sym("P", d["name"])
             return None
         if k == "MemberExpr" and n["member"]["kind"] == "field" and n["member"]["this"]:
